@@ -99,10 +99,10 @@ impl<F: AsFd, E> Generic<F, E> {
     /// What `reregister` guarantees beyond the trait contract. One text for the contract of the trait impl and for the
     /// slice that proves its body under the may-call guard (unit `generic`).
     pub open spec fn reregister_post(o: &Self, n: &Self, p: &Poll, tf: &TokenFactory, ok: bool) -> bool {
-        &&& ok ==> (n.tok() matches Some(t) && t.tok() == tf.next())
+        &&& (ok && o.tok() is Some) ==> (n.tok() matches Some(t) && t.tok() == tf.next())
         // C16/C02: Ok means the kernel registration HAS been replaced by (interest, mode, key of the token now remembered):
         // the key the kernel reports and the token process_events compares against cannot drift apart
-        &&& ok ==> p.pl().w_modified(o.raw(), crate::sys::expected_event(o.want_interest(), n.tok()->Some_0),
+        &&& (ok && o.tok() is Some) ==> p.pl().w_modified(o.raw(), crate::sys::expected_event(o.want_interest(), n.tok()->Some_0),
                                      crate::sys::spec_cvt_mode(o.want_mode(), p.pl().spec_supports_level()))
         &&& n.raw() == o.raw() && n.want_interest() == o.want_interest() && n.want_mode() == o.want_mode()
     }
@@ -202,8 +202,10 @@ impl<F: AsFd, E> Generic<F, E> {
     open spec fn reregister_req(&self) -> bool { self.wf() }
     open spec fn reregister_ens(o: &Self, n: &Self, ok: bool) -> bool {
         &&& n.wf() && n.has_poller() == o.has_poller()
-        &&& ok ==> n.tok() is Some
+        &&& (ok && o.tok() is Some) ==> n.tok() is Some
         &&& !ok ==> n.tok() == o.tok()
+        // C07: a source that holds no registration (disabled) does not get one from a re-registration, whatever the call answers
+        &&& o.tok() is None ==> n.tok() is None
     }
     open spec fn unregister_req(&self) -> bool { self.wf() }
     open spec fn unregister_ens(o: &Self, n: &Self, ok: bool) -> bool {
